@@ -26,6 +26,7 @@ CONSTANTS
   Mutation = "{mutation}"
 INVARIANT TypeOK
 INVARIANT ReadCoherent
+INVARIANT ShiftInitialised
 INVARIANT ShiftFiniteWhileAlive
 INVARIANT KilledFraction
 INVARIANT SameEstimator
@@ -47,12 +48,13 @@ def design(chk: Check, which=("ReadCoherent",)):
         raise MachineryError(f"run-level design violates {r.violated_name}: the specification is wrong")
     if r.coverage_zero:
         raise MachineryError(f"actions never taken in the design run: {r.coverage_zero}")
-    for m in ("no_block_refresh", "no_sr_refresh", "no_entry_refresh"):
+    for m, inv in (("no_block_refresh", "ReadCoherent"), ("no_sr_refresh", "ReadCoherent"), ("no_entry_refresh", "ReadCoherent"),
+                   ("no_shift_reset", "ShiftInitialised")):
         rn = chk.tlc("Afqmc", DESIGN_CFG.format(neql=1, nblocks=1, save="FALSE", mutation=m), name=f"Afqmc-neg-{m}",
                      expect_violation=True, count=False)
-        if not (rn.violated and rn.violated_name == "ReadCoherent"):
-            raise MachineryError(f"negative config {m} was not rejected: ReadCoherent is vacuous")
-    chk.note("negative_configs_rejected", ["no_block_refresh", "no_sr_refresh", "no_entry_refresh"])
+        if not (rn.violated and rn.violated_name == inv):
+            raise MachineryError(f"negative config {m} was not rejected: {inv} is vacuous")
+    chk.note("negative_configs_rejected", ["no_block_refresh", "no_sr_refresh", "no_entry_refresh", "no_shift_reset"])
 
 
 def scenarios(tier, seed):
